@@ -6,12 +6,14 @@ func init() {
 
 // C01: every cell of the operator tables, two-operator nestings, three provenances.
 func checkC01(c *Check) {
-	c.rule = "MC_Expr enumerates operator x left x right over the value set of EFValues (all types, boundaries), unary operators, and all two-operator nestings over a reduced set; each row is the script `return <expr>;` with operands as literals / variables / object fields, run optimised and unoptimised; a case is non-trivial when the specification gives a value or ERR (not SKIP); distinct = distinct (provenance, script text)"
+	c.rule = "MC_Expr enumerates operator x left x right over the value set of EFValues (all types, boundaries), unary operators, and all two-operator nestings over a reduced set; each row is the script `return <expr>;` with operands as literals / variables / object fields, run optimised and unoptimised; a case is non-trivial when the specification gives a value or ERR (not SKIP); ; MC_Match: 17 subjects with blanks and line breaks x 11 anchored patterns x ~= / !~ x 3 provenances; distinct = distinct (provenance, script text)"
 	c.assumptions = []string{
 		"TLC arithmetic is 32-bit: results beyond 10^9, 64-bit wrap-around are outside the model (SKIP)",
 		"floats are exact rationals; the implementation's float64 must equal the correctly rounded rational (math/big), printed forms of floats come from strconv (trusted)",
 		"error messages are not compared, only error-ness",
-		"regexps outside the subset {literal, ., ^, $, x*, flag i} and subjects containing whitespace are SKIP",
+		"regexps outside the subset {literal, ., ^, $, x*, flag i} are SKIP; for subjects containing white space or line breaks MC_Match accepts the verdict of either of two definitions (lines stripped and tested one by one / the text as it is) provided the same one is followed for every subject",
 	}
 	runExprRows(c, nil)
+	// subjects with white space and line breaks: either definition, but one of them everywhere
+	runMatchRows(c)
 }
